@@ -264,3 +264,20 @@ def run(ctx):
     from rules.C03 import hdr_zero
     hdr_zero(ctx, prog, 'ZERO-GROWN')
 
+
+
+    ctx.rule('ZERO-ALLOC', 'the allocator helpers whose blocks are later serialised into files (functions named *_alloc / *_calloc / *_dup / psf_memdup that return a pointer) hand out '
+             'zero-initialised memory: they allocate with calloc (or allocate through another such helper and fill the block): no byte a header writer can emit is stale heap content of '
+             'an earlier handle', floor=6)
+    import re as _re9
+    nza = 0
+    for g in sorted(prog.lib_fns(), key=lambda g: (g.file, g.line)):
+        if not (_re9.search(r'(_alloc|_calloc|_dup|memdup)$', g.name) and g.ret.rstrip().endswith('*')):
+            continue
+        al = [c for c in g.calls() if c.get('callee') in ('malloc', 'calloc', 'realloc')]
+        via = [c for c in g.calls() if c.get('callee') and _re9.search(r'(_alloc|_calloc|memdup)$', c['callee'])]
+        bad = [c for c in al if c['callee'] != 'calloc']
+        nza += 1
+        ctx.ob('ZERO-ALLOC', g.name, not bad and (bool(al) or bool(via)), g.loc(bad[0]) if bad else g.loc(g.body), '%s allocates with %s' % (g.name, sorted({c['callee'] for c in al + via}) or 'nothing recognisable') +
+               ('' if not bad else ': the block is not zeroed — bytes the caller never sets (padding after a string terminator, unused table slots) reach the file with whatever the heap held before'), None)
+    ctx.require(nza >= 6, 'only %d allocator helpers found' % nza)
